@@ -286,9 +286,48 @@ def idivmod(a, b):
     return q, m
 
 
+def _chain(x, k):
+    """Bit view of the integer term x (lemma L2, floor division by powers of two):
+         q_0 = x,   q_i = 2*q_{i+1} + b_i,   b_i in {0,1}        for i <= k
+    so that b_i is bit i of the two's-complement expansion of x and q_i = x >> i
+    (= floor(x / 2^i), for negative x as well).  Introduced once per term, extended on demand."""
+    P = cur()
+    x = z3.simplify(x)
+    views = P.__dict__.setdefault("_bitview", {})
+    key = x.get_id()
+    if key not in views:
+        views[key] = dict(x=x, q=[x], b=[])
+    v = views[key]
+    while len(v["b"]) <= k:
+        i = len(v["b"])
+        b = P.fresh("bit%d" % i)
+        q = P.fresh("shr%d" % (i + 1))
+        P.axiom(z3.And(b >= 0, b <= 1))
+        P.axiom(v["q"][i] == 2 * q + b)
+        v["b"].append(b)
+        v["q"].append(q)
+    return v
+
+
 def bit(x, k):
     """bit k (k>=0 concrete) of the two's-complement expansion of integer term x."""
-    return z3.simplify((x / Z(1 << k)) % 2)
+    x = z3.simplify(x)
+    if is_num(x):
+        return Z((x.as_long() >> k) & 1)
+    return _chain(x, k)["b"][k]
+
+
+def shr(x, k):
+    """x >> k  ==  floor(x / 2^k)  for concrete k >= 0."""
+    x = z3.simplify(x)
+    if k == 0:
+        return x
+    if is_num(x):
+        return Z(x.as_long() >> k)
+    c, u = _lin_const(x)
+    if c % (1 << k) == 0 and c != 1:
+        return z3.simplify((c >> k) * u)
+    return _chain(x, k - 1)["q"][k]
 
 
 def band_const(x, K):
@@ -477,7 +516,7 @@ class SymInt(int):
             return NotImplemented
         if o < 0:
             raise ValueError("negative shift count")
-        return lift(self.t / Z(1 << o))
+        return lift(shr(self.t, o))
 
     def __rrshift__(self, o):
         raise Escape("shift by symbolic amount")
